@@ -12,6 +12,7 @@ from .core import SReal, SBool, T, is_sym, ST, fresh, R
 from .avec import AVec, norm as _anorm
 
 HIT = set()
+PRESET = {'uniform': [], 'normal': []}   # draws named by the contract, consumed first (standard uniform / standard normal)
 RNG_LOG = []       # record of random draws on the current path: (generator identity, method, law tag, symbols)
 
 
@@ -31,6 +32,12 @@ def _obj(a):
     if isinstance(a, STag): return a.a
     if isinstance(a, _np.ndarray): return a
     return _np.asarray(a, dtype=object) if _issym(a) else _np.asarray(a)
+
+
+class _ADim:
+    """the unknown dimension of the abstract vector space"""
+    def __repr__(self): return 'ADIM'
+ADIM = _ADim()
 
 
 class STag:
@@ -108,6 +115,12 @@ class NPRandom(Forward):
         super().__init__(real, 'np.random'); object.__setattr__(self, 'ident', ident)
     def _draw(self, method, law, shape, facts=lambda s: []):
         _hit('np.random.' + method)
+        fam = 'uniform' if law[0] == 'uniform' else ('normal' if law[0] == 'normal' else None)
+        if fam and PRESET[fam]:
+            out = PRESET[fam].pop(0)
+            RNG_LOG.append((object.__getattribute__(self, 'ident'), method, law, out))
+            if fam == 'uniform' and (law[1], law[2]) != (0, 1): out = law[1] + (law[2] - law[1]) * out
+            return out
         if shape is None or shape == ():
             s = fresh(f"rnd_{method}"); ST.base.extend(facts(s)); out = SReal(s); syms = [s]
         else:
@@ -121,13 +134,15 @@ class NPRandom(Forward):
     def rand(self, *shape): return self._draw('rand', ('uniform', 0, 1), shape or None, lambda s: [s >= 0, s < 1])
     def random(self, size=None): return self._draw('random', ('uniform', 0, 1), size, lambda s: [s >= 0, s < 1])
     def uniform(self, low=0.0, high=1.0, size=None):
+        if PRESET['uniform']: return self._draw('uniform', ('uniform', low, high), size)
         return self._draw('uniform', ('uniform', low, high), size, lambda s: [s >= T(low), s < T(high)])
     def randn(self, *shape): return self._draw('randn', ('normal', 0, 1), shape or None)
     def standard_normal(self, size=None): return self._draw('standard_normal', ('normal', 0, 1), size)
     def normal(self, loc=0.0, scale=1.0, size=None):
         if size is None and not _np.isscalar(loc) and not isinstance(loc, SReal): size = _np.shape(loc)
         if size is None and not _np.isscalar(scale) and not isinstance(scale, SReal): size = _np.shape(scale)
-        z = self._draw('normal', ('normal', loc, scale), size)
+        z = self._draw('normal', ('normal', 0, 1), size)
+        RNG_LOG.append((object.__getattribute__(self, 'ident'), 'normal-params', (loc, scale), None))
         return loc + scale * z
     def gamma(self, shape, scale=1.0, size=None):
         return self._draw('gamma', ('gamma', shape, scale), size, lambda s: [s > 0])
@@ -189,6 +204,7 @@ class NPShim(Forward):
 
     # allocation: object arrays so that symbolic values can be stored
     def zeros(self, shape, dtype=None, **k):
+        if shape is ADIM: return AVec()
         a = _np.empty(shape, dtype=object); a.fill(0.0) if dtype is None or dtype in (float, _np.float64) else a.fill(_np.zeros((), dtype=dtype).item()); return a
     def ones(self, shape, dtype=None, **k):
         a = _np.empty(shape, dtype=object); a.fill(1.0); return a
